@@ -51,7 +51,7 @@ ASSUMPTIONS = ["a request is routed at the virtual instant its first copy reache
 EXPECTED_PROBES = ["routed_leaf", "routed_nested", "routed_404", "pc_terminal", "exact_over_prefix", "longest_of_several",
                    "subsite_root_slash", "abbrev_ok", "abbrev_bad", "wkc_plain", "wkc_filtered", "hidden_present",
                    "changed_while_rendering", "op_arrival_tie", "removed_then_404", "empty_component",
-                   "block1_request", "block1_uri_checked"]
+                   "block1_request", "block1_uri_checked", "wkc_several_filters"]
 
 TOL = common.TOL
 LAT = faults.LAT
@@ -326,6 +326,14 @@ def gen(r, tier):
                 else:
                     q = [r.choice(["title=Room 1", "title=Room*", "title=R", "title=R*", "rel=impl-info", "obs=*",
                                    "zz=1", "obs"])]
+            if q and links and r.chance(0.25):
+                # a second search token taken from the same link (so that something matches both)
+                href2, attrs2 = href, attrs
+                cands = [(kk, vv) for kk, vv in attrs2 if vv and kk in ("rt", "if", "ct", "title")] + [("href", href2)]
+                kk, vv = r.choice(cands)
+                tok2 = r.choice(vv.split(" ")) if kk in ("rt", "if", "ct") else vv
+                second = "%s=%s" % (kk, tok2 if r.chance(0.6) else tok2[: r.randint(1, max(1, len(tok2)))] + "*")
+                q = [q[0], second] if r.chance(0.5) else [second, q[0]]
             if r.chance(0.12):
                 op["abbrev"] = 0
                 path = []
@@ -851,7 +859,29 @@ def execute(sim, scn):
             k, _, v = fq[0].partition("=")
             filt = (k, v)
         elif len(fq) > 1:
-            continue  # more than one search token: RFC 6690 does not define it
+            # more than one search token: RFC 6690 does not say how they combine.  Whatever the combination (all of
+            # them, any of them, only one of them), a link matching every token is listed and a link matching none is
+            # not -- that much is checked
+            sim.probe("wkc_several_filters")
+            toks = [tuple(x.partition("=")[::2]) for x in fq]
+            ok_some_state = False
+            detail = None
+            for n in idx:
+                vis = listing(states[n])
+                allm = multiset((l[0], attrs_key(l[1])) for l in vis if all(match_filter(l, k, v) for k, v in toks))
+                anym = multiset((l[0], attrs_key(l[1])) for l in vis if any(match_filter(l, k, v) for k, v in toks))
+                gotm = multiset((l[0], attrs_key(l[1])) for l in got_links)
+                miss, extra = ms_list(ms_sub(allm, gotm)), ms_list(ms_sub(gotm, anym))
+                if not miss and not extra:
+                    ok_some_state = True
+                    break
+                detail = dict(ident, missing=[[m[0], list(m[1])] for m in miss][:4], extra=[[e[0], list(e[1])] for e in extra][:4])
+            if not ok_some_state:
+                if any(vv is None for l in listing(states[idx[0]]) for kk, vv in l[1] if kk in [t[0] for t in toks]):
+                    continue  # valueless attributes under a filter: covered by the single-token case
+                sim.violation("C17/several-filters-wrong-subset", detail)
+                return
+            continue
         sim.probe("wkc_filtered" if filt else "wkc_plain")
 
         def key(l):
